@@ -82,7 +82,26 @@ impl<Read: ReadHalf> ReadConnection<Read> {
         enum ReplyMsg<ReplyParams, ReplyError> {
             Varlink(varlink_service::Error),
             Error(ReplyError),
-            Reply(Reply<ReplyParams>),
+            Reply(SuccessReply<ReplyParams>),
+        }
+
+        // A success reply is an object that has no `error` member. Without this check, an error
+        // that neither of the first two variants recognises would be reported as a success.
+        #[derive(Debug, Deserialize)]
+        struct SuccessReply<ReplyParams> {
+            parameters: Option<ReplyParams>,
+            continues: Option<bool>,
+            #[serde(default, deserialize_with = "reject_error", rename = "error")]
+            _error: (),
+        }
+
+        fn reject_error<'de, D>(deserializer: D) -> core::result::Result<(), D::Error>
+        where
+            D: serde::Deserializer<'de>,
+        {
+            // Only called when the `error` member is present.
+            serde::de::IgnoredAny::deserialize(deserializer)?;
+            Err(serde::de::Error::custom("unrecognised error reply"))
         }
 
         match self
@@ -94,7 +113,7 @@ impl<Read: ReadHalf> ReadConnection<Read> {
             ReplyMsg::Error(e) => Ok(Err(e)),
             ReplyMsg::Reply(reply) => {
                 // It's a success response.
-                Ok(Ok(reply))
+                Ok(Ok(Reply::new(reply.parameters).set_continues(reply.continues)))
             }
         }
     }
